@@ -134,7 +134,7 @@ def run(tier, seed, replay):
     # ---- run-time half: GetParam on the real generated container (type and value, single vs multi chunk, env/envInt/todo, failing function)
     from . import rtcommon
     shapes = ["%%", "a%%b", "%lit%", "x%lit%y", "%n%", "%n%%n%", "%b%", " %b%", "%nil%", "%nil%!", "%f%", "%u%", "%s%", "%s%%s%", "%%%s%%%", "%env(\"GV_SET\")%", "%env(\"GV_NOPE\")%",
-              "%env(\"GV_NOPE\", \"d\")%", "%envInt(\"GV_INT\")%", "%envInt(\"GV_INT\")%0", "%envInt(\"GV_BAD\")%", "%envInt(\"GV_NOPE\", 7)%", "%env(\"GV_EMPTY\")%", "%env(\"GV_EMPTY\", \"dflt\")%", "%envInt(\"GV_EMPTY\", 7)%", "%envInt(\"GV_EMPTY\")%", "x%env(\"GV_EMPTY\", \"dflt\")%y", "%envInt(\"GV_BAD\", 7)%", "%todo()%", "%todo(\"msg\")%",
+              "%env(\"GV_NOPE\", \"d\")%", "%envInt(\"GV_INT\")%", "%envInt(\"GV_INT\")%0", "%envInt(\"GV_BAD\")%", "%envInt(\"GV_NOPE\", 7)%", "%env(\"GV_EMPTY\")%", "%env(\"GV_EMPTY\", \"dflt\")%", "%envInt(\"GV_EMPTY\", 7)%", "%envInt(\"GV_EMPTY\")%", "x%env(\"GV_EMPTY\", \"dflt\")%y", "%envInt(\"GV_BAD\", 7)%", "%envInt(\"GV_Z\")%", "v=%envInt(\"GV_Z\")%", "%envInt(\"GV_NEG0\")%", "%envInt(\"GV_PLUS\")%", "%envInt(\"GV_BIG\")%", "%envInt(\"GV_MIN\")%", "%env(\"GV_Z\")%", "%todo()%", "%todo(\"msg\")%",
               "@x", "@", "!value 1", "!value al.X", "!tagged t", "$gontainer", "@x%%", "!value %n%", "@%lit%",
               "%fn(\"x\", 3)%", "%fn(\"fail\")%", "pre %fn(\"fail\")% post", "é%s%✓", "%lit% %n% %b% %nil% %f% %u%", "100%%", "%%%%", "%env(\"GV_SET\")%/%env(\"GV_SET\")%"]
     base = {"meta": {"imports": {"al": "gv.test/fix/alpha"}, "functions": {"fn": "al.Fn"}},
@@ -148,6 +148,26 @@ def run(tier, seed, replay):
     rsp["cfg"] = rcfg
     rsp["what"] = ["runtime-params"]
     rh = [{"op": "param", "name": p} for p in rcfg["parameters"]] + [{"op": "param", "name": p} for p in list(rcfg["parameters"])[:6]] + [{"op": "get", "name": "holder"}]
+    # byte strings that are not valid UTF-8 (YAML !!binary): the same round trip, byte for byte.  The decoded configuration travels to the
+    # model as JSON, which cannot carry such bytes, so this family is checked against the statement directly (no model comparison).
+    import base64 as _b64
+    BYTES = [b"\xff", b"a\xfe%%b\xff", b"\xc3(", b"%%\xff%%", b"\xe2\x82", b"ok\x80\x81%%%%", b"\xf0\x9f\x98"]
+    bcfg = {"parameters": {"y%d" % i: cfggen.Raw("!!binary \"%s\"" % _b64.b64encode(v).decode()) for i, v in enumerate(BYTES)}}
+    bsp = common.mk_spec(0, [bcfg], keep_out=True)
+    bsp["cfg"] = bcfg
+    bsp["what"] = ["runtime-bytes"]
+    bh = [{"op": "param", "name": "y%d" % i} for i in range(len(BYTES))]
+    bobs, brl, _, bacc = rtcommon.run_histories(out, tooldir, env, [bsp], [bh], "C03 byte strings at run time", "C03", compare=False)
+    if 0 in bacc:
+        from vlib import coqrun as _cq2
+        for i, (v, line) in enumerate(zip(BYTES, brl[0])):
+            want = v.replace(b"%%", b"%")
+            got = _cq2.unesc(line[2:-1]) if line.startswith("S(") and line.endswith(")") else None
+            if got != want:
+                out.violation("runtime-roundtrip-bytes:%s" % v.hex()[:12], "GetParam of the byte string %r (every %% doubled) returns %s instead of %r" % (v, line[:120], want),
+                              dict(common.slim(bsp, bobs[0]), history=[bh[i]], expected_hex=want.hex()))
+    else:
+        out.violation("runtime-roundtrip-bytes:rejected", "a configuration whose parameters are byte strings with every %% doubled is rejected: %s" % ((bobs[0].get("errors") or [])[:3],), common.slim(bsp, bobs[0]))
     # registered functions: a user registration of a built-in name replaces the built-in; a later file replaces an earlier registration
     fcfg1 = {"meta": {"imports": {"al": "gv.test/fix/alpha"}, "functions": {"env": "al.Fn", "envInt": "al.GetEnv", "todo": "al.Lookup", "norm": "al.Fn"}},
              "parameters": {"e": "%env(\"abc\")%", "i": "%envInt(\"GV_INT\")%", "t": "%todo(\"m\")%", "n": "%norm(\"x\", 2)%", "mix": "a %env(\"b\")% c"}}
